@@ -62,8 +62,8 @@ def load_findings() -> Dict[str, Any]:
 
 
 def finding_matches(f: Dict[str, Any], prop: str, ob, unit: str = "") -> bool:
-    if prop not in f["property"].split(","):
-        return False
+    # (a finding is identified by obligation + unit + path + note; the properties it is recorded
+    # for say where it is reported first, see the caller)
     if f.get("unit") and unit and f["unit"] != unit:
         return False
     if not re.fullmatch(f["obligation"], ob.name):
@@ -242,11 +242,12 @@ def main(argv=None) -> int:
             # writes outside its frame can break any property that relies on the unit, so they count
             # for every check that runs it (they used to count only for the properties named in the
             # unit's contract: seeded/C15-mark-request-also-sets-terminated passed the C15 check)
-            structural = ".frame." in ob.name or ob.name.endswith(".atomic")
-            if not structural and ob.props and prop not in ob.props and (set(ob.props) & unit_props.get(r.unit, set())):
-                # counted by another property whose plan also runs this unit; an obligation that
-                # no such property claims is counted here (no obligation of a unit goes unjudged)
-                continue
+            # Every obligation of every unit in the property's plan counts for the property: the plan
+            # says "this property depends on this function", and a function that breaks any of its
+            # contract clauses no longer is the function the property's argument was made about.
+            # (Until session 3 an obligation counted only for the properties its clause was tagged
+            # with; most seeded changes that a check missed had failed a clause tagged for another
+            # property of the same unit.  The tags remain in the evidence as documentation.)
             n_instances += 1
             d = named.setdefault(ob.name, {"clause": ob.clause, "instances": 0, "status": "unsat", "ms": 0.0, "unit": r.unit, "where": ob.where, "props": list(ob.props), "cvc5": 0})
             d["instances"] += 1
@@ -264,7 +265,8 @@ def main(argv=None) -> int:
             for f in findings["findings"]:
                 if f.get("status", "open") == "open" and finding_matches(f, prop, ob, r.unit):
                     hit = f
-                    break
+                    if prop in f["property"].split(","):
+                        break  # prefer an entry recorded for this property
             if hit is not None:
                 known_hits.setdefault(hit["id"], []).append(ob)
                 if d["status"] == "unsat":
@@ -405,7 +407,8 @@ def main(argv=None) -> int:
         f = [x for x in findings["findings"] if x["id"] == fid][0]
         rep = scen.get(fid)
         tag = "" if rep is None else (" [native scenario reproduces]" if rep[0] else " [native scenario did NOT reproduce: " + rep[1][:120] + "]")
-        print(f"KNOWN-FINDING: property={prop} {fid}: {f['what']}{tag}")
+        other = "" if prop in f["property"].split(",") else f" (recorded for {f['property']}; the same defect fails a clause of a unit this property's plan also relies on)"
+        print(f"KNOWN-FINDING: property={prop} {fid}{other}: {f['what']}{tag}")
     if errors:
         rc = 3
     elif viol_lines:
